@@ -26,11 +26,12 @@ class Form:
 class FForall(Form):
     """forall v1..vn (ints). fn(*consts) -> formula (range guards included via FImp)."""
 
-    def __init__(self, arity, fn, label='', bounds=None):
+    def __init__(self, arity, fn, label='', bounds=None, names=None):
         self.arity = arity
         self.fn = fn
         self.label = label
         self.bounds = bounds   # optional [(lo, hi)] per variable (for proof-by-cases on the last index)
+        self.names = names     # optional variable names (for proof-by-cases hints of the contract)
 
 
 class FAnd(Form):
@@ -55,6 +56,7 @@ class FExists(Form):
 
 _fresh_counter = [0]
 SK_BOUNDS = {}
+SK_NAMES = {}
 
 
 def fresh(prefix, sort=None):
@@ -150,6 +152,9 @@ def to_goals(f, hyps=None):
         if f.bounds:
             for c, b in zip(cs, f.bounds):
                 SK_BOUNDS[c.get_id()] = (c, b[0], b[1])
+        if f.names:
+            for c, nm in zip(cs, f.names):
+                SK_NAMES[c.get_id()] = nm
         res = []
         for (h, g, sk) in to_goals(f.fn(*cs), hyps):
             res.append((h, g, cs + sk))
